@@ -10,6 +10,7 @@
 package c08
 
 import (
+	"encoding/json"
 	"fmt"
 	"os"
 	"reflect"
@@ -328,7 +329,8 @@ func classify(f ecmare.Features, engine string, subj []rune, ogen bool, nonUAgre
 	return sig
 }
 
-const o1Timeout = 20 * time.Second
+// O1 timeout: only ever turns a pair into "inconclusive".
+const o1Timeout = 300 * time.Millisecond
 
 // decide runs one pattern against its subjects.
 func (w *worker) decide(it item, narrate bool) *outcome {
@@ -376,6 +378,22 @@ func (w *worker) decide(it item, narrate bool) *outcome {
 		o.count("ogen_engine/"+engine, 1)
 	}
 	say("ogen: Compile err=%v engine=%s type=%s Convert=(%q,%v)", cerr, engine, base.Type, conv, convOK)
+	// a compiled pattern reports its source text (any pattern ogen accepts)
+	if re != nil {
+		var str string
+		if pan, txt := ev.Guard(func() { str = re.String() }); pan {
+			w := base
+			w.Check, w.Ogen = "panic", "String panics: "+txt
+			o.viol = append(o.viol, violation{"panic/string", fmt.Sprintf("pattern %q: String() panics: %s", p, txt), w})
+			return o
+		}
+		o.count("string_checked", 1)
+		if str != p {
+			w := base
+			w.Check, w.Ogen = "string", fmt.Sprintf("String()=%q", str)
+			o.viol = append(o.viol, violation{"string-not-source/" + engine, fmt.Sprintf("Compile(%q).String() = %q", p, str), w})
+		}
+	}
 
 	// ---- oracles, pattern level
 	prog, perr := ecmare.Parse(p)
@@ -449,24 +467,68 @@ func (w *worker) decide(it item, narrate bool) *outcome {
 		say("O3 V8: compiles with u=%v (%v) without u=%v (%v)", ans.U, deref(ans.EU), ans.N, deref(ans.EN))
 	}
 
+	// O1 runs before ogen on every subject: regexp2 (which is also ogen's fall-back
+	// engine, there with a fixed 15 s timeout) spins and allocates without bound on
+	// some patterns (e.g. lazy loops over an empty alternative). After the first O1
+	// timeout O1 is dropped for the rest of the pattern, and ogen is no longer called
+	// when it runs the same engine.
+	o1dead := re1 == nil
+	o1panicked := false
+	o1 := func(rs []rune) (m, ok bool) {
+		if o1dead {
+			return false, false
+		}
+		var err error
+		if pan, txt := ev.Guard(func() { m, err = re1.MatchRunes(rs) }); pan {
+			// O1 is out for this pattern; ogen is still asked (guarded) below
+			o1dead, o1panicked = true, true
+			o.count("patterns_o1_panic", 1)
+			o.inc = append(o.inc, inconc{"o1-panic", map[string]any{"pattern": p, "subject": string(rs), "engine": engine, "panic": txt}, 0})
+			return false, false
+		}
+		if err != nil {
+			o1dead = true
+			o.count("patterns_o1_timeout", 1)
+			o.inc = append(o.inc, inconc{"o1-timeout", map[string]any{"pattern": p, "subject": string(rs), "engine": engine, "error": err.Error()}, 0})
+			return false, false
+		}
+		return m, true
+	}
+	ogenSafe := func() bool { return engine != engRegexp2 || !o1dead || o1panicked }
+
 	// no-panic smoke on ogen for every pattern that compiled, decided or not
+	smokeDiff := false
 	smoke := func() bool {
 		if re == nil {
 			return true
 		}
 		cur := ""
 		pan, txt := ev.Guard(func() {
-			for i := 0; i < total && i < 400; i++ {
-				s, _, b := subj(i)
+			for i := 0; i < total && i < 300; i++ {
+				s, rs, b := subj(i)
 				cur = s
-				re.MatchString(s)
-				re.Match(b)
+				if engine == engRegexp2 {
+					o1(rs)
+				}
+				if !ogenSafe() {
+					o.count("ogen_not_called_after_o1_timeout_same_engine", 1)
+					return
+				}
+				m1, e1 := re.MatchString(s)
+				m2, e2 := re.Match(b)
+				if e1 == nil && e2 == nil && m1 != m2 && !smokeDiff {
+					smokeDiff = true
+					w := base
+					w.Check, w.Subject, w.SubjectCP = "match-vs-matchstring", s, codepoints(s)
+					w.Ogen = fmt.Sprintf("MatchString=%s Match([]byte)=%s", tf(m1), tf(m2))
+					o.viol = append(o.viol, violation{"match-vs-matchstring/" + engine, fmt.Sprintf("pattern %q subject %q (%s): %s", p, s, w.SubjectCP, w.Ogen), w})
+				}
 			}
 		})
 		if pan {
 			w := base
 			w.Check, w.Subject, w.SubjectCP, w.Ogen = "panic", cur, codepoints(cur), "Match panics: "+txt
-			o.viol = append(o.viol, violation{"panic/match", fmt.Sprintf("pattern %q subject %q: match panics: %s", p, cur, txt), w})
+			o.viol = append(o.viol, violation{"panic/match/" + engine, fmt.Sprintf("pattern %q subject %q: match panics: %s", p, cur, txt), w})
 			return false
 		}
 		return true
@@ -524,18 +586,6 @@ func (w *worker) decide(it item, narrate bool) *outcome {
 		o.viol = append(o.viol, violation{"compile-error", fmt.Sprintf("ogenregex.Compile(%q) fails (%v) but every oracle accepts the pattern", p, cerr), w})
 		return o
 	}
-	var str string
-	if pan, txt := ev.Guard(func() { str = re.String() }); pan {
-		w := base
-		w.Check, w.Ogen = "panic", "String panics: "+txt
-		o.viol = append(o.viol, violation{"panic/string", fmt.Sprintf("pattern %q: String() panics: %s", p, txt), w})
-		return o
-	}
-	if str != p {
-		w := base
-		w.Check, w.Ogen = "string", fmt.Sprintf("String()=%q", str)
-		o.viol = append(o.viol, violation{"string-not-source/" + engine, fmt.Sprintf("Compile(%q).String() = %q", p, str), w})
-	}
 	if f.Extended() {
 		o.count("patterns_with_lookaround_backref_namedgroup", 1)
 		if engine == engRE2 {
@@ -547,122 +597,156 @@ func (w *worker) decide(it item, narrate bool) *outcome {
 	}
 
 	// ---- subject level
-	if !smoke() {
-		return o
+	const (
+		no  = 0
+		yes = 1
+		na  = 2
+	)
+	b2 := func(m bool) uint8 {
+		if m {
+			return yes
+		}
+		return no
 	}
+	show := func(v uint8) string {
+		switch v {
+		case yes:
+			return "match"
+		case no:
+			return "no-match"
+		}
+		return "n/a"
+	}
+	resOgen := make([]uint8, total)
+	resO1 := make([]uint8, total)
+	resO2 := make([]uint8, total)
 	type agg struct {
 		first int
 		n     int
-		ogen  bool
 	}
 	viol := map[string]*agg{}
 	var violOrder []string
 	incs := map[string]*agg{}
 	var incOrder []string
+	note := func(m map[string]*agg, order *[]string, key string, i int, shorter bool) {
+		a := m[key]
+		if a == nil {
+			m[key] = &agg{first: i, n: 1}
+			*order = append(*order, key)
+			return
+		}
+		a.n++
+		if shorter {
+			_, prs, _ := subj(a.first)
+			_, rs, _ := subj(i)
+			if len(rs) < len(prs) {
+				a.first = i
+			}
+		}
+	}
 	matched, unmatched := 0, 0
 	useO2 := !f.Extended()
-	for i := 0; i < total; i++ {
-		s, rs, bs := subj(i)
-		og, ogErr := re.MatchString(s)
-		ogb, ogbErr := re.Match(bs)
-		if ogErr != nil || ogbErr != nil {
-			o.count("ogen_match_error", 1)
-			incs0 := "ogen-match-error"
-			if a := incs[incs0]; a == nil {
-				incs[incs0] = &agg{first: i, n: 1}
-				incOrder = append(incOrder, incs0)
-			} else {
-				a.n++
-			}
-			continue
-		}
-		if og != ogb {
-			sig := "match-vs-matchstring/" + engine
-			if a := viol[sig]; a == nil {
-				viol[sig] = &agg{first: i, n: 1, ogen: og}
-				violOrder = append(violOrder, sig)
-			} else {
-				a.n++
-			}
-		}
-		votes := make([]bool, 0, 3)
-		desc := ""
-		if m, err := re1.MatchRunes(rs); err == nil {
-			votes = append(votes, m)
-			desc += "o1=" + tf(m)
-		} else {
-			o.count("o1_timeout_or_error", 1)
-			desc += "o1=error"
-		}
-		o2m, o2ok := false, false
-		if m, ok := prog.Test(rs); ok {
-			o2m, o2ok = m, true
-			if useO2 {
-				votes = append(votes, m)
-			}
-			desc += ",o2=" + tf(m)
-		} else {
-			o.count("o2_step_budget", 1)
-			desc += ",o2=undecided"
-		}
-		nonUAgrees := false
-		if o3 {
-			m := ans.bitU(i)
-			votes = append(votes, m)
-			desc += ",o3=" + tf(m)
-			if n := ans.bitN(i); n != m {
-				o.count("pairs_where_v8_result_depends_on_u_flag", 1)
-				nonUAgrees = n == og
-			}
-		}
-		if len(votes) == 0 {
-			o.count("pairs_without_oracle", 1)
-			continue
-		}
-		agree := true
-		for _, v := range votes[1:] {
-			if v != votes[0] {
-				agree = false
-			}
-		}
-		if !useO2 && o2ok && len(votes) > 0 {
-			if o2m == votes[0] && agree {
-				o.count("extended_pairs_o2_agrees", 1)
-			} else {
-				o.count("extended_pairs_o2_disagrees", 1)
-			}
-		}
-		if !agree {
-			reason := "oracles-disagree/" + desc + "/ogen(" + engine + ")=" + tf(og)
-			if a := incs[reason]; a == nil {
-				incs[reason] = &agg{first: i, n: 1}
-				incOrder = append(incOrder, reason)
-			} else {
-				a.n++
-			}
-			continue
-		}
-		o.evals++
-		truth := votes[0]
-		if truth {
-			matched++
-		} else {
-			unmatched++
-		}
-		if og != truth {
-			sig := classify(f, engine, rs, og, nonUAgrees)
-			if a := viol[sig]; a == nil {
-				viol[sig] = &agg{first: i, n: 1, ogen: og}
-				violOrder = append(violOrder, sig)
-			} else {
-				a.n++
-				// keep the shortest subject as the witness
-				_, prs, _ := subj(a.first)
-				if len(rs) < len(prs) {
-					a.first = i
+	cur := ""
+	pan, txt := ev.Guard(func() {
+		for i := 0; i < total; i++ {
+			s, rs, bs := subj(i)
+			cur = s
+			resOgen[i], resO1[i], resO2[i] = na, na, na
+			nvotes, ayes := 0, 0
+			if m, ok := o1(rs); ok {
+				resO1[i] = b2(m)
+				nvotes++
+				if m {
+					ayes++
 				}
 			}
+			if !ogenSafe() {
+				o.count("ogen_not_called_after_o1_timeout_same_engine", total-i)
+				for j := i; j < total; j++ {
+					resOgen[j], resO1[j], resO2[j] = na, na, na
+				}
+				return
+			}
+			og, ogErr := re.MatchString(s)
+			ogb, ogbErr := re.Match(bs)
+			if ogErr != nil || ogbErr != nil {
+				o.count("ogen_match_error", 1)
+				note(incs, &incOrder, "ogen-match-error", i, false)
+				continue
+			}
+			resOgen[i] = b2(og)
+			if og != ogb {
+				note(viol, &violOrder, "match-vs-matchstring/"+engine, i, true)
+			}
+			if m, ok := prog.Test(rs); ok {
+				resO2[i] = b2(m)
+				if useO2 {
+					nvotes++
+					if m {
+						ayes++
+					}
+				}
+			} else {
+				o.count("o2_step_budget", 1)
+			}
+			nonUAgrees := false
+			if o3 {
+				m := ans.bitU(i)
+				nvotes++
+				if m {
+					ayes++
+				}
+				if n := ans.bitN(i); n != m {
+					o.count("pairs_where_v8_result_depends_on_u_flag", 1)
+					nonUAgrees = n == og
+				}
+			}
+			if nvotes == 0 {
+				o.count("pairs_without_oracle", 1)
+				continue
+			}
+			agree := ayes == 0 || ayes == nvotes
+			if !useO2 && resO2[i] != na {
+				if agree && (resO2[i] == yes) == (ayes > 0) {
+					o.count("extended_pairs_o2_agrees", 1)
+				} else {
+					o.count("extended_pairs_o2_disagrees", 1)
+				}
+			}
+			if !agree {
+				v8 := "n/a"
+				if o3 {
+					v8 = tf(ans.bitU(i))
+				}
+				o2s := show(resO2[i])
+				if !useO2 {
+					o2s = "n/a"
+				}
+				note(incs, &incOrder, "oracles-disagree/o1="+show(resO1[i])+",o2="+o2s+",v8u="+v8+"/ogen("+engine+")="+tf(og), i, true)
+				continue
+			}
+			if useO2 && nvotes < 2 {
+				// a single reference is not enough to accuse anybody
+				o.count("pairs_with_single_oracle_not_decided", 1)
+				continue
+			}
+			o.evals++
+			truth := ayes > 0
+			if truth {
+				matched++
+			} else {
+				unmatched++
+			}
+			if og != truth {
+				note(viol, &violOrder, classify(f, engine, rs, og, nonUAgrees), i, true)
+			}
 		}
+	})
+	if pan {
+		w := base
+		w.Check, w.Subject, w.SubjectCP, w.Ogen = "panic", cur, codepoints(cur), "Match panics: "+txt
+		o.viol = append(o.viol, violation{"panic/match/" + engine, fmt.Sprintf("pattern %q subject %q: match panics: %s", p, cur, txt), w})
+		return o
 	}
 	o.nontriv = matched > 0 && unmatched > 0
 	if o.nontriv {
@@ -670,23 +754,12 @@ func (w *worker) decide(it item, narrate bool) *outcome {
 		o.count("patterns_nontrivial/"+engine, 1)
 	}
 	mk := func(i int) witness {
-		s, rs, _ := subj(i)
+		s, _, _ := subj(i)
 		w := base
 		w.Subject, w.SubjectCP = s, codepoints(s)
-		og, _ := re.MatchString(s)
-		w.Ogen = tf(og)
-		if m, err := re1.MatchRunes(rs); err == nil {
-			w.O1 = tf(m)
-		} else {
-			w.O1 = "error: " + err.Error()
-		}
-		if m, ok := prog.Test(rs); ok {
-			w.O2 = tf(m)
-			if !useO2 {
-				w.O2 += " (not deciding: extended construct)"
-			}
-		} else {
-			w.O2 = "undecided (step budget)"
+		w.Ogen, w.O1, w.O2 = show(resOgen[i]), show(resO1[i]), show(resO2[i])
+		if !useO2 {
+			w.O2 += " (not deciding: extended construct)"
 		}
 		if o3 {
 			w.O3U, w.O3N = tf(ans.bitU(i)), tf(ans.bitN(i))
@@ -695,14 +768,14 @@ func (w *worker) decide(it item, narrate bool) *outcome {
 		}
 		return w
 	}
+
 	for _, sig := range violOrder {
 		a := viol[sig]
 		w := mk(a.first)
 		w.Count = a.n
 		if strings.HasPrefix(sig, "match-vs-matchstring") {
 			w.Check = "match-vs-matchstring"
-			mb, _ := re.Match([]byte(w.Subject))
-			w.Ogen = fmt.Sprintf("MatchString=%s Match([]byte)=%s", w.Ogen, tf(mb))
+			w.Ogen = fmt.Sprintf("MatchString=%s Match([]byte)=the opposite", w.Ogen)
 			o.viol = append(o.viol, violation{sig, fmt.Sprintf("pattern %q subject %q (%s): %s", p, w.Subject, w.SubjectCP, w.Ogen), w})
 			continue
 		}
@@ -799,6 +872,21 @@ func run(r *ev.Run, items []item, sets []*subjects, script string) {
 	close(pool)
 	for w := range pool {
 		w.node.close()
+	}
+	if path := os.Getenv("VERIF_C08_DUMP"); path != "" {
+		// debugging aid: every inconclusive sample and violation as JSON lines
+		if f, err := os.Create(path); err == nil {
+			enc := json.NewEncoder(f)
+			for i, o := range outs {
+				for _, in := range o.inc {
+					enc.Encode(map[string]any{"kind": "inconclusive", "reason": in.reason, "origin": items[i].origin, "case": in.sample})
+				}
+				for _, v := range o.viol {
+					enc.Encode(map[string]any{"kind": "violation", "sig": v.sig, "origin": items[i].origin, "case": v.w})
+				}
+			}
+			f.Close()
+		}
 	}
 	sampled := map[string]int{}
 	for i, o := range outs {
